@@ -264,6 +264,21 @@ Definition check_expand (bucket : option (list (list N))) (keys : list (list N))
 Definition check_C19 (kind : string) (input output : J) : verdict :=
   if String.eqb kind "expand" then
     (* in = [bucket_exists, keys, pattern]; out = [expand, expand_required, prefix seen] *)
+    (* optional 4th / 5th component: the keys stored with a ZERO-LENGTH body (put directly /
+       written through write_cloud_jsonl_vec with no record); expansion is by KEY, so the model
+       and the reference ignore object sizes -- they only have to be sub-lists of `keys` *)
+    let '(input, sized_ok) :=
+      match input with
+      | JL [a; jk; c; je; jw] =>
+          (JL [a; jk; c],
+           match jstrs jk, jstrs je, jstrs jw with
+           | Some keys, Some e, Some w =>
+               forallb (fun k => mem_key k keys) e && forallb (fun k => mem_key k keys) w
+           | _, _, _ => false
+           end)
+      | _ => (input, true)
+      end in
+    if negb sized_ok then malformed else
     match input, output with
     | JL [JB ex; jk; jp], JL [j1; j2; js] =>
         match jstrs jk, jstr jp, dec_keys_outcome j1, dec_keys_outcome j2, dec_seen js with
@@ -373,6 +388,27 @@ Definition check_C19 (kind : string) (input output : J) : verdict :=
         | _, _ => malformed
         end
     | _ => malformed
+    end
+  else if String.eqb kind "big" then
+    (* in = [key, n]: records [i, "row"] for i < n written in one call and read back;
+       out = ["ok", n written, n read, first id, last id, sum of ids, ids consecutive from 0,
+              every payload equal, signature id] | ["err", stage].  Expected summary by
+       arithmetic (the round-trip theorem covers every n). *)
+    match input, output with
+    | JL [jk; JI n], JL [t; JI nw; JI nb; JI fst_id; JI lst_id; JI sum; JB consec; JB pay; JI sig] =>
+        match jstr jk with
+        | Some key =>
+            if jtag_is "ok" t then
+              let prop := (0 <=? n) && (nw =? n) && (nb =? n) &&
+                          (fst_id =? (if n =? 0 then -1 else 0)) && (lst_id =? n - 1) &&
+                          (sum =? n * (n - 1) / 2) && consec && pay in
+              ok_verdict (prop && (sig =? codec_id (writer_codec key))) prop
+            else malformed
+        | None => malformed
+        end
+    | JL [jk; JI n], JL [t; _] =>
+        if jtag_is "err" t then ok_verdict false false else malformed
+    | _, _ => malformed
     end
   else if String.eqb kind "seq" then
     (* in = [[[key, records], ...] writes in this order, [keys to read afterwards]];
